@@ -147,70 +147,6 @@ def findRec (k : Nat) : List INode → Option (INode × INode)
   | [] => none
   | r :: rs => match r.find k with | some x => some (r, x) | none => findRec k rs
 
-structure World where
-  docs : List DocSt
-  next : Nat
-deriving Repr
-
-/-- `DeepCopy(object node of document src, document dst)` -/
-structure CopyOp where
-  src : Nat
-  node : Nat
-  dst : Nat
-deriving Repr
-
-/-- the family a role node that is not below a FAM node of the copied tree belongs to: the FAM
-    record it lives in (the decoder builds role nodes only inside FAM records) -/
-def ctxOf (r : INode) : Option (Nat × Str) := if r.tag == tagFAM then some (r.id, r.ptr) else none
-
-/-- the object each role node of the copy belongs to (`Family()`), in walk order: the counterpart
-    in the destination of its source family — the new FAM records are numbered `nx, nx+1, …` in
-    the order in which their source families are first met -/
-def roleFamilies (ctx : Option (Nat × Str)) (nx : Nat) (t : INode) : List Nat :=
-  let used := (famsUsed ctx t).2
-  let firsts := (firstNew [] used).1.reverse
-  used.map fun f => nx + firsts.idxOf f.1
-
-mutual
-/-- the nodes of a copy that carry a document (`Document()`): INDI and FAM nodes -/
-def docBearing : INode → List Nat
-  | .mk i t _ _ ks => (if t == tagFAM || t == lit "INDI" then [i] else []) ++ docBearingList ks
-def docBearingList : List INode → List Nat
-  | [] => []
-  | k :: ks => docBearing k ++ docBearingList ks
-end
-
-structure CopyEvent where
-  op : CopyOp
-  source : INode
-  ctx : Option (Nat × Str)
-  start : Nat
-  result : CopyDocResult
-deriving Repr
-
-/-- one copy.  `none`: the operation is not one (no such document / object) or the walk panics
-    (unreachable for objects of documents: `copy_total`); the world is then unchanged. -/
-def World.step (w : World) (op : CopyOp) : World × Option CopyEvent :=
-  match w.docs[op.src]?, w.docs[op.dst]? with
-  | some s, some d =>
-    match findRec op.node s.nodes with
-    | none => (w, none)
-    | some (r, t) =>
-      match deepCopyIn (ctxOf r) w.next t with
-      | .panic => (w, none)
-      | .ok c nx wr adds =>
-        let d' := d.addFamilies nx adds
-        (⟨w.docs.set op.dst d'.1, d'.2⟩, some ⟨op, t, ctxOf r, w.next, ⟨c, d'.1.nodes, d'.2, wr, adds⟩⟩)
-  | _, _ => (w, none)
-
-/-- a sequence of copies: the final world and what each operation returned -/
-def World.run (w : World) : List CopyOp → World × List (Option CopyEvent)
-  | [] => (w, [])
-  | op :: ops =>
-    let a := w.step op
-    let b := a.1.run ops
-    (b.1, a.2 :: b.2)
-
 /-! ### `Filter` with a tag filter into another document (round 4)
 
   `Filter(root, dst, fn)` for `fn = WhitelistTagFilter(tags…)` / `BlacklistTagFilter(tags…)`
@@ -282,6 +218,86 @@ def filterIntoDoc (ctx : Option (Nat × Str)) (dst : DocSt) (next : Nat) (keep :
       | some (_, p) =>
         let d' := dst.addFamilies nx [p]
         (.ok ⟨c, d'.1.nodes, d'.2, wr, [p]⟩, d'.1)
+
+structure World where
+  docs : List DocSt
+  next : Nat
+deriving Repr
+
+/-- `DeepCopy(object node of document src, document dst)` -/
+structure CopyOp where
+  src : Nat
+  node : Nat
+  dst : Nat
+  /-- `none`: `DeepCopy(node, dst)`; `some (white, tags)`: `Filter(node, dst,
+      WhitelistTagFilter(tags…))` (`white`) / `BlacklistTagFilter(tags…)` -/
+  filter : Option (Bool × List Str) := none
+deriving Repr
+
+/-- the tags an operation keeps -/
+def CopyOp.keep (op : CopyOp) : Str → Bool :=
+  match op.filter with
+  | none => fun _ => true
+  | some (white, tags) => tagFilter white tags
+
+/-- the family a role node that is not below a FAM node of the copied tree belongs to: the FAM
+    record it lives in (the decoder builds role nodes only inside FAM records) -/
+def ctxOf (r : INode) : Option (Nat × Str) := if r.tag == tagFAM then some (r.id, r.ptr) else none
+
+/-- the object each role node of the copy belongs to (`Family()`), in walk order: the counterpart
+    in the destination of its source family — the new FAM records are numbered `nx, nx+1, …` in
+    the order in which their source families are first met -/
+def roleFamilies (ctx : Option (Nat × Str)) (nx : Nat) (t : INode) : List Nat :=
+  let used := (famsUsed ctx t).2
+  let firsts := (firstNew [] used).1.reverse
+  used.map fun f => nx + firsts.idxOf f.1
+
+mutual
+/-- the nodes of a copy that carry a document (`Document()`): INDI and FAM nodes -/
+def docBearing : INode → List Nat
+  | .mk i t _ _ ks => (if t == tagFAM || t == lit "INDI" then [i] else []) ++ docBearingList ks
+def docBearingList : List INode → List Nat
+  | [] => []
+  | k :: ks => docBearing k ++ docBearingList ks
+end
+
+structure CopyEvent where
+  op : CopyOp
+  source : INode
+  ctx : Option (Nat × Str)
+  start : Nat
+  result : CopyDocResult
+deriving Repr
+
+/-- one copy.  `none`: the operation is not one (no such document / object), the walk panics
+    (unreachable for objects of documents: `copy_total`) or `Filter` returns nil (the root's tag
+    is rejected); the world is then unchanged. -/
+def World.step (w : World) (op : CopyOp) : World × Option CopyEvent :=
+  match w.docs[op.src]?, w.docs[op.dst]? with
+  | some s, some d =>
+    match findRec op.node s.nodes with
+    | none => (w, none)
+    | some (r, t) =>
+      match op.filter with
+      | none =>
+        match deepCopyIn (ctxOf r) w.next t with
+        | .panic => (w, none)
+        | .ok c nx wr adds =>
+          let d' := d.addFamilies nx adds
+          (⟨w.docs.set op.dst d'.1, d'.2⟩, some ⟨op, t, ctxOf r, w.next, ⟨c, d'.1.nodes, d'.2, wr, adds⟩⟩)
+      | some (white, tags) =>
+        match filterIntoDoc (ctxOf r) d w.next (tagFilter white tags) t with
+        | (.ok res, d') => (⟨w.docs.set op.dst d', res.next⟩, some ⟨op, t, ctxOf r, w.next, res⟩)
+        | _ => (w, none)
+  | _, _ => (w, none)
+
+/-- a sequence of copies: the final world and what each operation returned -/
+def World.run (w : World) : List CopyOp → World × List (Option CopyEvent)
+  | [] => (w, [])
+  | op :: ops =>
+    let a := w.step op
+    let b := a.1.run ops
+    (b.1, a.2 :: b.2)
 
 /-! ### nil -/
 
